@@ -2,7 +2,8 @@
 #include "routemodel.h"
 #include <fstream>
 
-static inline unsigned char tagb(unsigned w, size_t j) { uint32_t x = (uint32_t)(j * 2654435761u) ^ (w * 40503u + 0x9e37u); return (unsigned char)((x >> 13) ^ (x >> 3) ^ w); }
+// (one tag in eight gives a body of 0xFF octets only: the octet that reads as EOF when a char is widened carelessly sits on every buffer boundary)
+static inline unsigned char tagb(unsigned w, size_t j) { if ((w & 7u) == 7u) return 0xFF; uint32_t x = (uint32_t)(j * 2654435761u) ^ (w * 40503u + 0x9e37u); return (unsigned char)((x >> 13) ^ (x >> 3) ^ w); }
 static std::string tagged_body(unsigned w, size_t n, bool textual) { std::string s(n, '\0'); for (size_t j = 0; j < n; j++) { unsigned char c = tagb(w, j); s[j] = (char)(textual ? 'a' + c % 26 : c); } return s; }
 
 // =====================================================================================
@@ -92,7 +93,8 @@ static void gen_recipe(Rng& r, Recipe& rc, bool allowStream) {
         std::string v = n == "Content-Encoding" ? "identity" : n == "Cache-Control" ? "max-age=" + std::to_string(r.range(0, 99999)) : n == "Location" ? "/" + mg::tok(r, 1, 20, mg::PATHCH) : mg::tok(r, 1, 24, mg::TOKCH);
         rc.headers.push_back({n, v}); }
     int nc = r.range(0, 4); std::set<std::string> cn;
-    for (int i = 0; i < nc; i++) { std::string n = mg::tok(r, 1, 6, mg::CKNAME); if (!cn.insert(n).second) continue; rc.cookies.push_back({n, mg::tok(r, 0, 10, mg::CKVAL)}); }
+    // names may repeat (a jar keeps several cookies of one name as long as their values differ); (name, value) pairs are unique
+    for (int i = 0; i < nc; i++) { std::string n = (!rc.cookies.empty() && r.chance(1, 3)) ? rc.cookies[r.below(rc.cookies.size())].first : mg::tok(r, 1, 6, mg::CKNAME); std::string v = mg::tok(r, 0, 10, mg::CKVAL); if (!cn.insert(n + "=" + v).second) continue; rc.cookies.push_back({n, v}); }
     rc.tag = (unsigned)r.range(1, 200);
     rc.viaClone = r.chance(1, 3);
     // 204 / 304 carry no body by definition: only the empty fixed body is generated for them, where every reading of the framing agrees
@@ -307,7 +309,11 @@ static void run_seg(long cases) {
             };
             int pk = r.range(0, 7); int k = r.range(0, 2);
             std::vector<size_t> caps; for (int j = 0; j < 5; j++) caps.push_back((size_t)r.range(1, 200));
-            set_caps(r.chance(1, 2) ? caps : std::vector<size_t>{}, true);
+            // the predecessor is read in one piece (an error found in the middle of a message discards what has been read so far; what
+            // arrives later of that same message would be taken for a new one - that is the client's problem, not a reset defect);
+            // the capped reads apply to the successor
+            set_caps({}, false);
+            bool capSuccessor = r.chance(1, 2);
             std::string wt = Json().num("i", idx).str("phase", "seg-c04-after-failure").str("predecessor", PRED[pk][0]).str("shape", ms[k].shape).str("hex", hex(ms[k].bytes.substr(0, 3000))).done();
             set_case(idx, wt);
             lv::Conn c; c.open_to(port);
@@ -316,6 +322,7 @@ static void run_seg(long cases) {
                 // a connection the server chose to close after the failure is out of scope (nothing follows on it)
                 struct pollfd pf{c.fd, POLLIN, 0}; bool closed = ::poll(&pf, 1, 30) > 0;
                 if (!closed) {
+                    if (capSuccessor) set_caps(caps, true);
                     std::string d; int st; exchange(c, ms[k].bytes, d, st);
                     g_evals++;
                     if (st != refStatus[k] || d != ref[k]) violation(std::string("c04:server:after-failed-request:") + PRED[pk][0] + ":" + (st != refStatus[k] ? "status-differs" : "message-differs"),
